@@ -35,8 +35,9 @@ VARIABLES c,        \* index of the case
           th,       \* th[t]: thread record (see X86.tla)
           mem,      \* shared memory: address -> byte
           buf,      \* buf[t]: pending stores (TSO)
-          fin       \* quiescence has been judged
-vars == <<c, th, mem, buf, fin>>
+          fin,      \* quiescence has been judged
+          nv        \* ghost: the object has held a bit pattern that is not a value of its type (_Bool: other than 0, 1)
+vars == <<c, th, mem, buf, fin, nv>>
 
 Case == Cases[c]
 Prog == Case.code
@@ -52,7 +53,8 @@ Fresh(t, k, rets) ==
    r |-> [x \in Regs |-> CASE x = "rsp" -> StackBase(t) + Case.ss - 8
                            [] x = "rdi" -> a[1] [] x = "rsi" -> a[2] [] x = "rdx" -> a[3]
                            [] OTHER -> 0],
-   z |-> [x \in Regs |-> FALSE],
+   h |-> [x \in Regs |-> CASE x = "rdi" -> SignOf(a[1]) [] x = "rsi" -> SignOf(a[2]) [] x = "rdx" -> SignOf(a[3]) [] OTHER -> 0],
+   x |-> [q \in {"xmm0", "xmm1"} |-> <<0, 0>>],
    fl |-> [z |-> FALSE, lt |-> FALSE, b |-> FALSE, known |-> FALSE],
    stk |-> [j \in 1..Case.ss |-> 0]]
 
@@ -84,6 +86,21 @@ Init == /\ c \in 1..Len(Cases)
         /\ th = [t \in Threads |-> Norm([T |-> Fresh(t, 1, <<>>), mem |-> InitMem, b |-> <<>>, ro |-> RoSet]).T]
         /\ buf = [t \in Threads |-> <<>>]
         /\ fin = FALSE
+        /\ nv = FALSE
+
+(* the value of the w-byte object at a in memory m.  Case.sg = 3: a floating type (w = 4 float, 8 double);
+   Level A keeps every value an integer n, |n| < 2^20 - bits that are no such number read as NoValue *)
+NoValue == -999999
+RdRaw(m, a) == RdMem([T |-> th[1], mem |-> m, b |-> <<>>, ro |-> {}], a, Case.w)
+RdVal(m, a) == IF Case.sg = 3 THEN (LET d == FDec(Case.w, RdRaw(m, a)) IN IF d.ok THEN d.n ELSE NoValue)
+               ELSE Num(Case.w, RdRaw(m, a))
+
+(* Every value an operation stores is converted to the object's type first (6.5.16.2, 7.17.7.3-5):
+   a _Bool object (Case.sg = 2) only ever holds 0 or 1, a floating object (Case.sg = 3) a number
+   (here: one of Level A's integers).  What the code under test then makes of other bits is its own
+   business (and may leave the interpreter's range), so this is judged first.                       *)
+NotAValue(m) == \/ Case.sg = 2 /\ Case.opk # "lock" /\ m[Case.obj] \notin {0, 1}
+                \/ Case.sg = 3 /\ RdVal(m, Case.obj) = NoValue
 
 Step(t) ==
   /\ ~fin /\ t \in Threads /\ ~Done(th[t])
@@ -93,6 +110,7 @@ Step(t) ==
         /\ th' = [th EXCEPT ![t] = M2.T]
         /\ mem' = M2.mem
         /\ buf' = [buf EXCEPT ![t] = M2.b]
+        /\ nv' = (nv \/ NotAValue(M2.mem))
   /\ UNCHANGED <<c, fin>>
 
 Flush(t) ==
@@ -100,6 +118,7 @@ Flush(t) ==
   /\ LET s == Head(buf[t]) IN
      mem' = [q \in DOMAIN mem |-> IF q >= s[1] /\ q < s[1] + Len(s[2]) THEN s[2][q - s[1] + 1] ELSE mem[q]]
   /\ buf' = [buf EXCEPT ![t] = Tail(@)]
+  /\ nv' = (nv \/ NotAValue(mem'))
   /\ UNCHANGED <<c, th, fin>>
 
 Quiescent == (\A t \in Threads : Done(th[t]) /\ buf[t] = <<>>)
@@ -115,7 +134,7 @@ OpsWith(conv) == [t \in Threads |-> [k \in 1..Case.reps |->
                    [opk |-> OpkOf(Case.args[t][k][3], conv), v |-> Case.args[t][k][2], e |-> Case.args[t][k][3]]]]
 LinSet == Lin(Case.w, Case.sg, OpsWith("old"), Case.init)
 LinNew == Lin(Case.w, Case.sg, OpsWith("new"), Case.init)
-RdObj(a) == Num(Case.w, RdMem([T |-> th[1], mem |-> mem, b |-> <<>>, ro |-> {}], a, Case.w))
+RdObj(a) == RdVal(mem, a)
 (* "casx": the judged state is the pair (atomic object, shared expected object at Case.aux) *)
 ObjVal == IF Case.opk = "casx" THEN [m |-> RdObj(Case.obj), x |-> RdObj(Case.aux)] ELSE RdObj(Case.obj)
 Outcome == [mem |-> ObjVal, rets |-> [t \in Threads |-> th[t].rets]]
@@ -124,7 +143,8 @@ Outcome == [mem |-> ObjVal, rets |-> [t \in Threads |-> th[t].rets]]
 KeptOK == \A j \in 1..Len(Case.keep) : mem[Case.keep[j][1]] = Case.keep[j][2]
 Errs == {th[t].err : t \in Threads} \ {""}
 Verdict ==
-  IF RoErr \in Errs THEN "expected-written-on-success"
+  IF nv THEN "stores-no-value-of-the-type"
+  ELSE IF RoErr \in Errs THEN "expected-written-on-success"
   ELSE IF Errs # {} THEN "model:" \o (CHOOSE e \in Errs : TRUE)
   ELSE IF Outcome \in LinSet /\ KeptOK THEN "ok"
   ELSE IF Case.opk \in FetchOld /\ Outcome \in LinNew /\ KeptOK THEN "returns-new-value"
@@ -135,7 +155,7 @@ Verdict ==
 Finish ==
   /\ ~fin /\ Quiescent
   /\ fin' = TRUE
-  /\ UNCHANGED <<c, th, mem, buf>>
+  /\ UNCHANGED <<c, th, mem, buf, nv>>
   /\ IF Emit THEN CSVWrite("%1$s", <<ToJson([c |-> c, name |-> Case.name, verdict |-> Verdict,
                                              mem |-> Outcome.mem, rets |-> Outcome.rets])>>, IOEnv.OUT)
      ELSE TRUE
